@@ -148,12 +148,18 @@ def check_type(t, quick, acc):
             a[-1] ^= 0x01
         if isinstance(a, bytearray) and a:
             a[0] ^= 0xFF
-        if H.val2bytes(H.nomval(t), t) != bytes(n):
+        aliased = H.val2bytes(H.nomval(t), t) != bytes(n)
+        if isinstance(a, list) and a:  # undo, so that the check itself leaves no trace
+            a[0] ^= 0xFF
+            a[-1] ^= 0x01
+        if aliased:
             acc.violation(f"nomval_aliases_mutable_result|{site}", {"sec": "nomval", "t": t}, "second nomval() after modifying the first result no longer encodes to zero bytes")
         b = H.bytes2val(bytes(n), t)
         if isinstance(b, list) and b:
             b[0] ^= 0xFF
-            if H.bytes2val(bytes(n), t) != L.dec(bytes(n), t):
+            bad = H.bytes2val(bytes(n), t) != L.dec(bytes(n), t)
+            b[0] ^= 0xFF
+            if bad:
                 acc.violation(f"bytes2val_aliases_mutable_result|{site}", {"sec": "nomval", "t": t}, "")
     except Exception as e:  # noqa: BLE001
         acc.violation(f"nomval_raises|{site}|{type(e).__name__}", {"sec": "nomval", "t": t}, str(e))
